@@ -55,6 +55,10 @@ def handle (op : String) (j : Json) : Option (Except String Json) :=
   | "c04.majorana" => some do
       let A ← J.op (← J.field j "A")
       .ok (J.ofOp (C04.jwMajorana tol (A.map fun (t, c) => (t.map (·.1), c))))
+  | "c04.fermion_ok" => some do .ok (Json.bool (C04.jwFermionOk tol (← J.op (← J.field j "A"))))
+  | "c04.majorana_ok" => some do
+      let A ← J.op (← J.field j "A")
+      .ok (Json.bool (C04.jwMajoranaOk tol (A.map fun (t, c) => (t.map (·.1), c))))
   | "c04.one_body" => some do
       .ok (J.ofOp (C04.jwOneBody tol (← J.nat (← J.field j "p")) (← J.nat (← J.field j "q"))
         (← J.gq (← J.field j "c"))))
